@@ -34,6 +34,7 @@ RULES = {
     "C01-L2": "every cursor advance is guarded the same way; the single retreat is paired with an advance of the same iteration",
     "C01-L3": "every other cursor store restores a cursor saved in the same call or sets the end of input",
     "C01-L4": "after the definite-length jump the cursor is compared with the end of input (or reset) before any use",
+    "C01-T1": "the text behind a parameter token is read directly (token.ptr[k], *token.ptr) only under a test of that token's length - or in SCPI_ParamCopyText, whose reads the bounds engine proves: an absent optional parameter is handed out as (ptr NULL, len 0)",
     "C01-L5": "every lex_state_t is constructed from the pointer and length of one token / parameter pair",
     "C01-L6": "every lexer loop advances the cursor (or decrements its bounded counter) on every path back to its head",
     "C01-I1": "SCPI_Input: the append is dominated by the overrun guard that keeps one byte for the terminator",
@@ -226,6 +227,72 @@ def _address_taken(prog, name):
 
 
 # ---- L5 construction ------------------------------------------------------------------------
+def token_text_reads(functions, S_facts):
+    """[(function, read node, guarded?)] for direct reads of a token's text"""
+    out = []
+    for f in functions:
+        for n in f.nodes.values():
+            if not (n.k == "ArraySubscriptExpr" or (n.k == "UnaryOperator" and n.get("op") == "*")):
+                continue
+            b = n.child(0).strip_all_casts()
+            pth = b.get("path") or ""
+            if not (pth.endswith(".ptr") or pth.endswith("->ptr")):
+                continue
+            base = pth[:-len("ptr")]
+            facts = S_facts(f, n)
+            k = C.const_of(n.child(1)) if n.k == "ArraySubscriptExpr" else 0
+            ok = False
+            for a, pol in facts:
+                if isinstance(pol, tuple):
+                    continue
+                if any((x.get("path") or "") == base + "len" for x in a.walk()) and a.k == "BinaryOperator" and \
+                        a.get("op") in ("<", ">", "<=", ">=", "!=", "=="):
+                    ok = True
+            out.append((f, n, ok))
+    return out
+
+
+def rule_t1(ck, prog, S):
+    from sa import facts as F_
+    import os
+    try:
+        fix = F_.extract_fixture(os.path.join(K.VERIF, "selftest", "fixtures", "token_text.c"))
+        S_fix = K.summaries(type("P_", (), {"functions": fix.functions, "fn": staticmethod(lambda n_: fix.functions.get(n_))})())
+        got = token_text_reads(fix.functions.values(), lambda f_, n_: K.facts_at(S_fix, f_, n_) or [])
+        marks = sorted((f_.name, ok) for f_, _n, ok in got)
+    except Exception as e:
+        marks = str(e)
+    if marks != [("first_letter", False), ("first_letter_checked", True)]:
+        ck.anchor_lost("C01-T1", "positive fixture selftest/fixtures/token_text.c: %s" % (marks,))
+        return
+    fns = [f for f in prog.functions.values() if f.relfile.endswith(("parser.c", "units.c", "expression.c"))]
+    n = 0
+    # the text copier and the static helpers it hands the token to: their reads are bounds obligations (C01-W / C15-W)
+    copier = {"SCPI_ParamCopyText"}
+    work = ["SCPI_ParamCopyText"]
+    while work:
+        g = prog.fn(work.pop())
+        for c in (g.calls() if g is not None else []):
+            h = prog.fn(c.get("callee") or "")
+            if h is not None and h.static and h.name not in copier:
+                copier.add(h.name)
+                work.append(h.name)
+    for f, node, ok in token_text_reads(fns, lambda f_, n_: K.facts_at(S, f_, n_) or []):
+        st = K.site(f, "token-text-read", n)
+        n += 1
+        if f.name in copier:
+            ck.holds("C01-T1", st, K.loc(f, node), "read proved in bounds by C01-W / C15-W", nontrivial=False)
+        elif ok:
+            ck.holds("C01-T1", st, K.loc(f, node), "under a test of the token's length")
+        else:
+            ck.violated("C01-T1", st, K.loc(f, node),
+                        "`%s` reads the text of a token without any test of its length: the token SCPI_Parameter hands out for an absent "
+                        "optional parameter has ptr == NULL and len == 0, a handler that passes it on makes the library read through "
+                        "NULL" % node.src)
+    ck.holds("C01-T1", K.site(prog.fn("SCPI_Parameter") or fns[0], "survey", 0), K.loc(prog.fn("SCPI_Parameter") or fns[0]),
+             "%d direct reads of token text in parser.c / units.c / expression.c" % n, nontrivial=False)
+
+
 def rule_l5(ck, prog, S, model):
     n = 0
     for f in sorted(model.fns, key=lambda f: (f.relfile, f.line)):
@@ -745,6 +812,7 @@ def run(ck, fb, tier):
             rule_l1_l2(ck, prog, S, model)
             rule_l3_l4(ck, prog, S, model)
             rule_l5(ck, prog, S, model)
+            rule_t1(ck, prog, S)
             rule_l6(ck, prog, S, model)
             rule_input(ck, prog, S)
             rule_progress(ck, prog, S, model)
